@@ -34,14 +34,16 @@ def main():
         with open(args.replay, encoding='utf-8') as f:
             rep = json.load(f)
         ctx.replay = rep
-        common.check_proofs(ctx, mod.PROPS_FILE)
+        common.check_proofs(ctx, mod.PROPS_FILE, extra_targets=getattr(mod, 'EXTRA_TARGETS', ()),
+                            const_parts=getattr(mod, 'CONST_PARTS', ()))
         try:
             mod.replay(ctx, rep)
         except common.InfraError as e:
             ctx.infra_problem(str(e))
         sys.exit(common.finish(ctx))
     try:
-        common.check_proofs(ctx, mod.PROPS_FILE)
+        common.check_proofs(ctx, mod.PROPS_FILE, extra_targets=getattr(mod, 'EXTRA_TARGETS', ()),
+                            const_parts=getattr(mod, 'CONST_PARTS', ()))
         mod.run(ctx)
     except common.InfraError as e:
         ctx.infra_problem(str(e))
